@@ -292,6 +292,8 @@ def _worker_init():
 
 def _pool_map(func, tasks):
     import multiprocessing as mp
+    # imported once here and inherited by the forked workers (otherwise every worker of every pool imports it anew)
+    import mokapot.tabular_data, mokapot.streaming, mokapot.confidence_writer  # noqa: F401, E401
     with mp.get_context("fork").Pool(min(14, len(tasks)), initializer=_worker_init) as pool:
         return pool.map(func, tasks, chunksize=1)
 
@@ -548,6 +550,158 @@ def _wname(kind):
 
 def _writer_case_id(kind, cls):
     return "%s-%s" % ("buffered-" + kind[1].lower() if kind[1] else kind[0] + "-writer", cls)
+
+
+# ------------------------------------------------------------------------------------------------ handed-over objects
+# The statement speaks about the rows that were appended: the values the handed-over object had WHEN append_data was
+# called. A caller is free to go on using that object afterwards (the usual "collect a batch in one list, hand it
+# over, clear it, refill it" idiom; one row dict that is updated for every row; a frame or record array that is
+# overwritten): the finalised file must not depend on what happens to the object after the call returned.
+JUNK = {"i": -777, "f": -0.125, "s": "JUNK_0", "b": False, "g": 99.5}
+REUSE_MODES = {None: ["frame-overwritten"], "DataFrame": ["frame-overwritten"],
+               "Dicts": ["list-refilled", "list-overwritten", "row-dict-reused"],
+               "Records": ["record-array-overwritten"]}
+
+
+def drive_reusing(append, sub, plan, mode):
+    """Hands the rows of `sub` over range by range (plan) and keeps using the handed-over object afterwards."""
+    cols = list(sub.columns)
+    junk = {c: JUNK[c] for c in cols}
+    if mode == "list-refilled":                       # ONE list object: filled, handed over, cleared, refilled ...
+        rows = []
+        for a, b in plan:
+            rows.clear()
+            rows.extend(sub.iloc[a:b].to_dict(orient="records"))
+            append(rows)
+        rows.clear()
+    elif mode == "list-overwritten":                  # a fresh list per append, emptied / given other content after
+        for k, (a, b) in enumerate(plan):
+            rows = sub.iloc[a:b].to_dict(orient="records")
+            append(rows)
+            if k % 2 == 0:
+                rows[:] = [dict(junk)]
+            else:
+                rows.clear()
+    elif mode == "row-dict-reused":                   # ONE dict object, updated for every row and handed over
+        row = {}
+        for a, b in plan:
+            for rec in sub.iloc[a:b].to_dict(orient="records"):
+                row.clear()
+                row.update(rec)
+                append(row)
+        row.update(junk)
+    elif mode == "frame-overwritten":                 # the frame's values are overwritten in place after the append
+        for a, b in plan:
+            part = sub.iloc[a:b].copy()
+            append(part)
+            if len(part):
+                for k, c in enumerate(cols):
+                    part.iloc[:, k] = junk[c]
+    elif mode == "record-array-overwritten":          # one numpy.record per append, its array slot overwritten after
+        for a, b in plan:
+            recs = sub.iloc[a:b].to_records(index=False)
+            for j in range(len(recs)):
+                append(recs[j])
+                recs[j] = tuple(junk[c] for c in cols)
+    else:
+        raise ValueError(mode)
+
+
+def run_reuse_case(d, df, cols, kind, buffer_size, plan, style, via_factory, mode):
+    fmt, buf = kind
+    path = Path(d) / ("reuse.parquet" if fmt == "parquet" else "reuse.csv")
+    if path.exists():
+        path.unlink()
+    sub = df[cols]
+    exp = rows_of(sub, cols)                          # the plan covers the rows 0..n in order
+    try:
+        w = make_writer(kind, path, cols, buffer_size, via_factory)
+        if style == "with":
+            with w:
+                drive_reusing(w.append_data, sub, plan, mode)
+        else:
+            w.initialize()
+            drive_reusing(w.append_data, sub, plan, mode)
+            w.finalize()
+    except Exception as e:                                            # noqa: BLE001
+        return [("raises-" + type(e).__name__, "%s" % str(e)[:200])]
+    try:
+        bad = diff_frame(read_back(fmt, path), cols, exp, check_index=False)
+        if bad:
+            return [("file-" + bad[0], "file content: " + bad[1])]
+    except Exception as e:                                            # noqa: BLE001
+        return [("file-unreadable-" + type(e).__name__, str(e)[:200])]
+    try:                                              # only reported when the file itself is right
+        bad = diff_frame(w.get_associated_reader().read(), cols, exp, check_index=False)
+        if bad:
+            return [("associated-reader-" + bad[0], "get_associated_reader().read(): " + bad[1])]
+    except Exception as e:                                            # noqa: BLE001
+        return [("associated-reader-raises-" + type(e).__name__, str(e)[:200])]
+    return []
+
+
+def _reuse_sizes(buf, n, all_sizes):
+    if buf is None:
+        return [0]
+    if buf == "Dicts":                                # sizes above n: nothing is flushed before finalize
+        return list(range(2, n + 3)) if all_sizes else sorted({2, n // 2 + 1, n + 1, n + 2} - {0, 1})
+    return sorted({2, n + 1})
+
+
+def _reuse_task(task):
+    n, seed, n_plans, fmt, all_sizes = task
+    ck = _Events()
+    rng = random.Random(seed * 1000 + 7 * n + (fmt == "parquet"))
+    colsets = [list(COLS), ["s", "i", "g"], ["b", "f"]]
+    df = make_table(n, seed + 17)
+    with scratch("c13u_") as d:
+        for kind in [k for k in WRITER_KINDS if k[0] == fmt]:
+            buf = kind[1]
+            for bs in _reuse_sizes(buf, n, all_sizes):
+                plans = append_plans(n, rng, n_plans)
+                if buf != "Dicts":
+                    plans = plans[:1] if buf == "Records" else plans[:3]
+                for k, plan in enumerate(plans):
+                    for m, mode in enumerate(REUSE_MODES[buf]):
+                        if mode == "row-dict-reused" and k > 0:
+                            continue                   # handed over row by row: the cuts of the sequence do not matter
+                        cols = colsets[(k + n + bs + m) % len(colsets)]
+                        style = ("calls", "with")[(k + bs + m) % 2]
+                        via_factory = (k + n + m) % 2 == 0
+                        ck.case((n, kind, bs, plan, cols, style, via_factory, mode), nontrivial=n >= 2)
+                        for cls, text in run_reuse_case(d, df, cols, kind, bs, plan, style, via_factory, mode):
+                            ck.violation("%s-handed-over-%s-%s" % (_writer_case_id(kind, "")[:-1], mode, cls),
+                                         "%s, %s: %s" % (_wname(kind), mode, text),
+                                         {"n": n, "seed": seed, "writer": list(kind), "buffer_size": bs,
+                                          "plan": plan, "columns": cols, "style": style,
+                                          "via_factory": via_factory, "mode": mode})
+    return ck.events
+
+
+def check_writers_reused_objects(tier, seed):
+    ns = [n for n in _sizes(tier) if n >= 1]
+    n_plans = 4 if tier == "quick" else 8
+    all_sizes = tier != "quick"
+    ck = Check("writers_handed_over_object_reused",
+               "mokapot.tabular_data.{CSVFileWriter,ParquetFileWriter,BufferedWriter,TabularDataWriter.from_suffix}: "
+               "initialize / append_data / finalize / get_associated_reader",
+               "one seeded table (seed %d) per row count 1..%d, column sets as in writers_read_back, text and "
+               "Parquet; the caller keeps using the object it handed to append_data: Dicts buffer (buffer sizes %s, "
+               "%d append sequences each: single rows, one append, empty appends first/middle/last, seeded cuts) "
+               "with (a) ONE list that is cleared and refilled for every append and cleared before finalize, (b) a "
+               "fresh list per append that is afterwards emptied or given one other row, (c) ONE row dict that is "
+               "updated and handed over row by row and changed once more before finalize (one sequence per buffer "
+               "size); unbuffered and DataFrame "
+               "buffer (sizes 2, n+1; 3 sequences): the frame's values overwritten in place after the append; "
+               "Records buffer (sizes 2, n+1; single records): the record's array slot overwritten after the append; "
+               "explicit calls and context manager alternate"
+               % (seed, ns[-1], "2..n+2" if all_sizes else "{2, n//2+1, n+1, n+2}", n_plans),
+               "oracle = the rows of the table in the order they were handed over (the value of the object at the "
+               "time of the call): the finalised file read with pandas/pyarrow directly (and, if that is right, "
+               "get_associated_reader().read()) holds exactly these columns and rows (ints/strings/bools exactly, "
+               "floats 1e-12); non-trivial = at least 2 rows")
+    _run_tasks(ck, _reuse_task, [(n, seed, n_plans, fmt, all_sizes) for n in reversed(ns) for fmt in ("parquet", "csv")])
+    return ck
 
 
 # ------------------------------------------------------------------------------------------------ column layouts
@@ -923,6 +1077,13 @@ def REPLAY(check_name, violation):
                                     [tuple(p) for p in inp["plan"]], inp["style"], inp["via_factory"],
                                     inp.get("stale", False))
         return {"violated": bool(probs), "detail": probs}
+    if check_name == "writers_handed_over_object_reused":
+        n, seed = inp["n"], inp["seed"]
+        df = make_table(n, seed + 17)
+        with scratch("c13p_") as d:
+            probs = run_reuse_case(d, df, inp["columns"], tuple(inp["writer"]), inp["buffer_size"],
+                                   [tuple(p) for p in inp["plan"]], inp["style"], inp["via_factory"], inp["mode"])
+        return {"violated": bool(probs), "detail": probs}
     if check_name in ["writers_" + dev.replace("-", "_") + "_frames" for dev in DEVIATIONS]:
         n, seed, kind = inp["n"], inp["seed"], tuple(inp["writer"])
         df = layout_table(n, seed, kind[0])
@@ -953,9 +1114,13 @@ if __name__ == "__main__":
     a = args()
     np.random.seed(a.seed)
     emit(_timed([(check_readers, a.tier, a.seed), (check_writers, a.tier, a.seed),
-                 (check_writer_layouts, a.tier, a.seed)]),
+                 (check_writers_reused_objects, a.tier, a.seed), (check_writer_layouts, a.tier, a.seed)]),
          ["tables have a default RangeIndex, no missing values and no text a CSV parser re-interprets: value "
           "round-tripping through CSV text / Parquet is a pandas / pyarrow matter",
+          "the appended rows are the values the handed-over object (list of dicts, dict, frame, numpy.record) has when "
+          "append_data is called: what the caller does with that object after the call returned (clearing / "
+          "refilling the list, updating the dict, overwriting the frame or record array) must not reach the file "
+          "(writers_handed_over_object_reused)",
           "BufferedWriter with buffer kind Records is driven with one numpy.record per append (its type "
           "annotation rejects record arrays)",
           "the function of a ComputedTabularDataReader only sees the requested columns of the wrapped reader; the "
